@@ -32,6 +32,13 @@
 (*           [sig,cnt,e1,e2] -> vds(meta.off+e,1); if/elif post_process      *)
 (*   "fixed" qcow/luks/vmdk-footer-like: header(0,2) parsed in its           *)
 (*           region_complete callback, opt(2,2,min_length=1), tail=End(2)    *)
+(*   "reloc" VMDK-like: header(0,3,min_length=2)=[kind,num,_] and a           *)
+(*           provisional desc(0,3,min_length=1) at the start; once the header *)
+(*           is complete post_process deletes desc and re-creates it at       *)
+(*           offset 3 with length min(num,2) (same name, new object), creates *)
+(*           the footer End(2) late when kind = 2, and region_complete(desc)  *)
+(*           parses the descriptor (text-descriptor mode is finding F1 and is *)
+(*           kept out of the alphabet)                                        *)
 (***************************************************************************)
 EXTENDS Integers, Sequences, FiniteSets, TLC
 
@@ -48,11 +55,14 @@ Min(a, b) == IF a < b THEN a ELSE b
 Max(a, b) == IF a > b THEN a ELSE b
 
 Names == IF Fmt = "chain" THEN {"ident", "header", "meta", "vds"}
+         ELSE IF Fmt = "reloc" THEN {"header", "desc", "footer"}
          ELSE {"header", "opt", "tail"}
 
 NoMin == -1
+\* gen distinguishes region OBJECTS: a region deleted and re-created under the same name is a
+\* different object (eat_chunk tracks new / newly complete regions by object identity)
 NoReg == [ex |-> FALSE, kind |-> "fix", off |-> 0, len |-> 0, minlen |-> NoMin,
-          src |-> 0, n |-> 0, bad |-> FALSE, fin |-> FALSE]
+          src |-> 0, n |-> 0, bad |-> FALSE, fin |-> FALSE, gen |-> 0]
 Reg(o, l)        == [NoReg EXCEPT !.ex = TRUE, !.off = o, !.len = l, !.src = o]
 RegMin(o, l, m)  == [Reg(o, l) EXCEPT !.minlen = m]
 EndReg(l)        == [NoReg EXCEPT !.ex = TRUE, !.kind = "end", !.off = l, !.len = l]
@@ -131,12 +141,32 @@ ChainPost(rg, s) ==
                                               !["vds"] = Reg(m.off + e, 1)], s, FALSE>>
   ELSE <<rg, s, FALSE>>
 
-Post(rg, s) == IF Fmt = "chain" THEN ChainPost(rg, s) ELSE <<rg, s, FALSE>>
+DescOff == 3
+DescMax == 2
+RelocPost(rg, s) ==
+  IF ~rg["header"].ex \/ ~Complete(rg["header"]) THEN <<rg, s, FALSE>>
+  ELSE LET v == Byte(rg["header"], 1)
+           num == Byte(rg["header"], 2)
+       IN IF v \notin {1, 2} THEN <<rg, s, TRUE>>                    \* signature not found
+          ELSE LET r1 == IF v = 2 /\ ~rg["footer"].ex
+                         THEN [rg EXCEPT !["footer"] = [EndReg(2) EXCEPT !.gen = 1]] ELSE rg
+                   r2 == IF r1["desc"].off = 0
+                         THEN [r1 EXCEPT !["desc"] = [Reg(DescOff, Min(num, DescMax)) EXCEPT !.gen = r1["desc"].gen + 1]]
+                         ELSE r1
+               IN <<r2, s, FALSE>>
+
+Post(rg, s) == IF Fmt = "chain" THEN ChainPost(rg, s)
+               ELSE IF Fmt = "reloc" THEN RelocPost(rg, s) ELSE <<rg, s, FALSE>>
 
 (* region_complete(name): one-time parse of a region (qcow-style) *)
 OnComplete(nm, rg, s) ==
   IF Fmt = "fixed" /\ nm = "header"
   THEN [s EXCEPT !.magic = Byte(rg["header"], 1), !.size = Byte(rg["header"], 2)]
+  ELSE IF Fmt = "reloc" /\ nm = "desc"
+  THEN \* _parse_descriptor: the provisional region holds header bytes (garbage = 9), an empty
+       \* descriptor gives 0, otherwise the type byte
+       [s EXCEPT !.magic = IF rg["desc"].off = 0 THEN 9
+                           ELSE IF rg["desc"].n = 0 THEN 0 ELSE Byte(rg["desc"], 1)]
   ELSE s
 
 -----------------------------------------------------------------------------
@@ -146,7 +176,7 @@ RECURSIVE Settle(_, _, _, _, _)
 Settle(rg, s, rs, p, fuel) ==
   LET pr  == Post(rg, s)
       rg2 == pr[1]
-      new == {nm \in Names : rg2[nm].ex /\ ~rg[nm].ex}
+      new == {nm \in Names : rg2[nm].ex /\ (~rg[nm].ex \/ rg2[nm].gen # rg[nm].gen)}
       rg3 == [nm \in Names |-> IF nm \in new THEN Cap1(rg2[nm], rs, p) ELSE rg2[nm]]
   IN IF pr[3] THEN <<rg2, pr[2], TRUE>>
      ELSE IF new = {} \/ fuel = 0 THEN <<rg3, pr[2], FALSE>>
@@ -162,6 +192,9 @@ InitRegs ==
   IF Fmt = "chain"
   THEN [nm \in Names |-> IF nm = "ident" THEN Reg(0, 1)
                          ELSE IF nm = "header" THEN Reg(1, 2) ELSE NoReg]
+  ELSE IF Fmt = "reloc"
+  THEN [nm \in Names |-> IF nm = "header" THEN RegMin(0, 3, 2)
+                         ELSE IF nm = "desc" THEN RegMin(0, 3, 1) ELSE NoReg]
   ELSE [nm \in Names |-> IF nm = "header" THEN Reg(0, 2)
                          ELSE IF nm = "opt" THEN RegMin(2, 2, 1) ELSE EndReg(2)]
 
@@ -176,15 +209,15 @@ Init == /\ stream \in [1..N -> Alpha]
 EatChunk(k) ==
   /\ ~finished /\ ~err /\ pos + k <= N
   /\ LET p   == pos + k
-         pre == {nm \in Names : regs[nm].ex /\ Complete(regs[nm])}
+         pre == {<<nm, regs[nm].gen>> : nm \in {x \in Names : regs[x].ex /\ Complete(regs[x])}}
          c1  == [nm \in Names |-> Cap1(regs[nm], pos, p)]
          s   == Settle(c1, ps, pos, p, 4)
          rg  == s[1]
-         post == {nm \in Names : rg[nm].ex /\ Complete(rg[nm])}
+         post == {<<nm, rg[nm].gen>> : nm \in {x \in Names : rg[x].ex /\ Complete(rg[x])}}
      IN /\ pos' = p
         /\ regs' = rg
         /\ err' = s[3]
-        /\ ps' = IF s[3] THEN s[2] ELSE Fire(post \ pre, rg, s[2])
+        /\ ps' = IF s[3] THEN s[2] ELSE Fire({x[1] : x \in post \ pre}, rg, s[2])
   /\ UNCHANGED <<stream, finished>>
 
 (* finish(): EndCaptureRegions may now report complete *)
@@ -208,15 +241,23 @@ AllComplete == \A nm \in Names : regs[nm].ex => Complete(regs[nm])
 
 Match == IF Fmt = "chain"
          THEN regs["ident"].n >= 1 /\ Byte(regs["ident"], 1) = 1
+         ELSE IF Fmt = "reloc"
+         THEN regs["header"].ex /\ regs["header"].n >= 1 /\ Byte(regs["header"], 1) \in {1, 2}
          ELSE Complete(regs["header"]) /\ ps.magic = 1
 
 Size == IF Fmt = "chain"
         THEN IF regs["vds"].ex /\ Complete(regs["vds"]) THEN Byte(regs["vds"], 1) ELSE 0
+        ELSE IF Fmt = "reloc"
+        THEN IF ps.magic = 1 /\ regs["header"].ex /\ regs["header"].n >= 2 THEN Byte(regs["header"], 2) ELSE 0
         ELSE IF Match THEN ps.size ELSE 0
 
 \* safety_check(): refused unless complete and matching; "fixed" has two
 \* checks reading the opt region's first byte and the tail's last byte
 Failures == IF Fmt = "chain" THEN {}
+            ELSE IF Fmt = "reloc"
+            THEN (IF ps.magic # 1 THEN {"descriptor"} ELSE {})
+                 \cup (IF regs["footer"].ex /\ regs["footer"].n >= 1
+                          /\ Byte(regs["footer"], 1) # Byte(regs["header"], 1) THEN {"footer"} ELSE {})
             ELSE (IF regs["opt"].n >= 1 /\ Byte(regs["opt"], 1) = 3 THEN {"opt"} ELSE {})
                  \cup (IF regs["tail"].n >= 1 /\ Byte(regs["tail"], regs["tail"].n) = 3
                        THEN {"tail"} ELSE {})
@@ -268,7 +309,17 @@ FixedRef ==
   IN IF ~(m /\ c) THEN <<"rejected", m, c, IF m THEN At(1) ELSE 0, {}>>
      ELSE <<IF f = {} THEN "ok" ELSE "fail", m, c, At(1), f>>
 
-Ref == IF Fmt = "chain" THEN ChainRef ELSE FixedRef
+RelocRef ==
+  LET v == At(0)
+      num == At(1)
+      dlen == Min(num, DescMax)
+      dtype == IF dlen = 0 THEN 0 ELSE At(DescOff)
+      f == (IF dtype # 1 THEN {"descriptor"} ELSE {})
+           \cup (IF v = 2 /\ At(N - 2) # 2 THEN {"footer"} ELSE {})
+  IN IF v \notin {1, 2} THEN Rejected
+     ELSE <<IF f = {} THEN "ok" ELSE "fail", TRUE, TRUE, IF dtype = 1 THEN num ELSE 0, f>>
+
+Ref == IF Fmt = "chain" THEN ChainRef ELSE IF Fmt = "reloc" THEN RelocRef ELSE FixedRef
 
 -----------------------------------------------------------------------------
 (* The property (C01), engine part *)
@@ -281,9 +332,12 @@ Faithful == \A nm \in Names :
                              /\ regs[nm].n <= regs[nm].len
                              /\ (regs[nm].n > 0 => regs[nm].src + regs[nm].n <= pos)
 
-\* an EndCaptureRegion present from the start holds exactly the tail
+\* an EndCaptureRegion present from the start holds exactly the tail at every point; one
+\* created later (gen > 0) holds exactly the tail once the stream is finished -- provided the
+\* stream is long enough for the region to have seen its whole window (true at these N;
+\* shorter streams are finding F3)
 EndFaithful == \A nm \in Names :
-                 (regs[nm].ex /\ regs[nm].kind = "end") =>
+                 (regs[nm].ex /\ regs[nm].kind = "end" /\ (regs[nm].gen = 0 \/ (finished /\ ~err /\ pos = N))) =>
                      /\ regs[nm].n = Min(regs[nm].len, pos)
                      /\ regs[nm].src = pos - regs[nm].n
 
@@ -302,11 +356,13 @@ PosMonotone == [][pos' >= pos]_vars
 Retained == LET S == {nm \in Names : regs[nm].ex} IN
             IF Fmt = "chain"
             THEN regs["ident"].n + regs["header"].n + regs["meta"].n + regs["vds"].n
+            ELSE IF Fmt = "reloc" THEN regs["header"].n + regs["desc"].n + regs["footer"].n
             ELSE regs["header"].n + regs["opt"].n + regs["tail"].n
-MemoryBound == Retained <= IF Fmt = "chain" THEN 1 + 2 + MetaLen + 1 ELSE 2 + 2 + 2
+MemoryBound == Retained <= IF Fmt = "chain" THEN 1 + 2 + MetaLen + 1 ELSE IF Fmt = "reloc" THEN 3 + 3 + 2 ELSE 2 + 2 + 2
 
 (* C07 (engine part): size is 0 for as long as the carrier is not captured    *)
 ZeroWhileUnknown ==
   IF Fmt = "chain" THEN (~(regs["vds"].ex /\ Complete(regs["vds"])) => Size = 0)
+  ELSE IF Fmt = "reloc" THEN (ps.magic # 1 => Size = 0)
   ELSE (~Complete(regs["header"]) => Size = 0)
 =============================================================================
